@@ -383,3 +383,45 @@ def skip_trace_check(rep, tier, seed, vsets=("universe", "deep")):
             rep.violation({"check": "skip-trace-rejected", "proto": "unsafe", "op": ev.get("op"), "tt": ev.get("tt", ev.get("ret"))},
                           {"source": vs or "seeded random trees", "rejected_at": r["line_in_run"], "event": ev, "run": r["run_lines"][:40]})
     return total
+
+
+def async_inductive(tier):
+    """Unbounded part of C12's design check: spec/ThriftAsyncApa.tla is the transition system of ThriftAsync with SYMBOLIC
+    request sizes (any message of <= 24 requests of any positive size, any end-of-stream position, any schedule).  Apalache
+    proves IndInv inductive (Init => IndInv; IndInv /\\ Next => IndInv') and IndInv => NoOverRead /\\ Exact /\\ EofIsError /\\
+    ErrOnlyOnEof; a variant whose Deliver may take one byte more than the request still needs must be refuted at the
+    inductive step (else the proof is vacuous: tool error).  Cached on the specification text."""
+    key = c.spec_hash("ThriftAsyncApa", "apalache-async")
+    p = os.path.join(c.OUT, "cache", f"apalache-async-{key}.json")
+    if os.path.exists(p):
+        return json.load(open(p))
+    # the typed module repeats the actions of ThriftAsync (the module TLC checks and the poll traces are validated against):
+    # the definitions that can be compared literally must be the same text
+    def defs(path):
+        t = open(path).read()
+        out = {}
+        for name in ("Cap", "Avail", "Finish", "Pending", "Eof"):
+            m = re.search(r"^" + name + r" ==(.*?)(?=^\S)", t, re.M | re.S)
+            out[name] = re.sub(r"\s+", " ", m.group(1)).strip() if m else None
+        return out
+    d1, d2 = defs(os.path.join(c.SPEC, "ThriftAsync.tla")), defs(os.path.join(c.SPEC, "ThriftAsyncApa.tla"))
+    if d1 != d2 or None in d1.values():
+        raise c.ToolError("ThriftAsyncApa.tla no longer repeats the actions of ThriftAsync.tla: " + json.dumps([k for k in d1 if d1[k] != d2[k]]))
+    base = c.apalache("ThriftAsyncApa", ["--cinit=ConstInit", "--init=Init", "--inv=IndInv", "--length=0"], tag="apa-base")
+    step = c.apalache("ThriftAsyncApa", ["--cinit=ConstInit", "--init=IndInit", "--inv=IndInv", "--length=1"], tag="apa-step")
+    props = c.apalache("ThriftAsyncApa", ["--cinit=ConstInit", "--init=IndInit", "--inv=Props", "--length=0"], tag="apa-props")
+    for name, r in (("Init => IndInv", base), ("IndInv /\\ Next => IndInv'", step), ("IndInv => Props", props)):
+        if not r["ok"]:
+            raise c.ToolError(f"ThriftAsyncApa: {name} does not hold:\n" + r["out"])
+    txt = open(os.path.join(c.SPEC, "ThriftAsyncApa.tla")).read()
+    bad = txt.replace("1 <= k /\\ k <= Cap /\\ k <= Avail", "1 <= k /\\ k <= Cap + 1 /\\ k <= Avail")
+    if bad == txt:
+        raise c.ToolError("ThriftAsyncApa: the defective variant could not be derived from the text")
+    ref = c.apalache("ThriftAsyncApa", ["--cinit=ConstInit", "--init=IndInit", "--inv=IndInv", "--length=1"], tag="apa-ref", text=bad)
+    if not ref["violation"]:
+        raise c.ToolError("ThriftAsyncApa: a Deliver that over-reads by one byte is not refuted (vacuous proof):\n" + ref["out"])
+    st = {"engine": "apalache 0.58", "max_requests": 24, "request_sizes": "symbolic (any positive integer)",
+          "obligations": {"Init => IndInv": base["dt"], "IndInv /\\ Next => IndInv'": step["dt"], "IndInv => NoOverRead /\\ Exact /\\ EofIsError /\\ ErrOnlyOnEof": props["dt"]},
+          "defective_variant_refuted": "Deliver may take Cap + 1 bytes: inductive step fails"}
+    json.dump(st, open(p, "w"))
+    return st
